@@ -436,7 +436,17 @@ def run_check(pid, tier, seed):
                 failures.extend(r['failures'])
                 samples.extend(r['samples'])
 
-    run_round(judge_only=False, scale=1.0)
+    # source drift steering (DESIGN 4.2b): a modelled function of /repo changed -> deeper quick run (never a verdict by itself)
+    drifted = []
+    try:
+        import anchors
+        drifted = anchors.drift(os.environ.get('VERIF_REPO', '/repo')).get(pid, [])
+    except Exception:
+        notes.append('anchor check failed: ' + traceback.format_exc()[-300:])
+    if drifted and tier == 'quick':
+        scale = float(os.environ.get('VERIF_DRIFT_SCALE', '6'))
+        log('[%s] source drift in %s -> quick budget x%g' % (pid, ', '.join(d.split(':')[1] for d in drifted[:6]), scale))
+    run_round(judge_only=False, scale=scale)
     if fatal:
         log(fatal)
         log('INFRASTRUCTURE: scenario worker crashed')
@@ -519,6 +529,8 @@ def run_check(pid, tier, seed):
             'disagreements_checked': len(corr_fail),
             'input_distribution': agg['dist'],
             'proof_obligations_broken': [w for w, _ in proof_broken],
+            'source_drift': drifted,
+            'budget_scale': scale,
             'known_findings_seen': known_hits,
         },
         'assumptions': list(prop.assumptions),
